@@ -282,3 +282,34 @@ Fixpoint kf_dup_service_types (d : device_def) : bool :=
   match d with
   | DeviceDef _ _ svcs subs => negb (nodupb (map s_type svcs)) || existsb kf_dup_service_types subs
   end.
+
+(* ------------------------------------------------------------------ known findings: what exactly deviates *)
+(* D32 / D33 are identified by their outcome, not only by their inputs: the object model of a description with same-type
+   siblings is the faithful mirror of the description one gets by treating `embedded_devices` / `services` as what they
+   are, dicts keyed by type - the first occurrence of a type keeps its place, the LAST sibling of that type is the one
+   that stays.  A description under the guards whose object model is the mirror of neither the description nor its
+   collapsed form fails the ordinary clause. *)
+Fixpoint last_with {A} (key : A -> pystr) (k : pystr) (l : list A) : option A :=
+  match l with
+  | [] => None
+  | x :: r => match last_with key k r with
+              | Some y => Some y
+              | None => if str_eqb (key x) k then Some x else None
+              end
+  end.
+Fixpoint dedup_last_aux {A} (key : A -> pystr) (all : list A) (seen : list pystr) (l : list A) : list A :=
+  match l with
+  | [] => []
+  | x :: r =>
+      if existsb (str_eqb (key x)) seen then dedup_last_aux key all seen r
+      else match last_with key (key x) all with
+           | Some y => y :: dedup_last_aux key all (key x :: seen) r
+           | None => x :: dedup_last_aux key all (key x :: seen) r
+           end
+  end.
+Definition dedup_last {A} (key : A -> pystr) (l : list A) : list A := dedup_last_aux key l [] l.
+Fixpoint collapse (d : device_def) : device_def :=
+  match d with
+  | DeviceDef h icons svcs subs =>
+      DeviceDef h icons (dedup_last s_type svcs) (dedup_last (fun x => h_type (dd_hdr x)) (map collapse subs))
+  end.
